@@ -68,6 +68,8 @@ TagReqs(t) ==
   { R("write", t, m, i, n, 0, ty, ValSeq(ty, n, s), <<>>) :
        m \in modes, i \in (0 - 1) .. L, n \in 1 .. (L + 1), ty \in WriteTypes(U), s \in 1 .. NV }
   \cup
+  { R("write", t, "sym", i, n, 0, U, ValSeq(U, n - 1, s), <<>>) : i \in {0 - 1, 0}, n \in 2 .. L, s \in 1 .. NV }       \* fewer values than declared
+  \cup
   { R("writef", t, m, i, n, off, ty, ValSeq(ty, k, s), <<>>) :
        m \in modes, i \in 0 .. (L - 1), n \in 1 .. (L + 1), off \in {0, szz, 2 * szz},
        ty \in (IF Rich THEN WriteTypes(U) ELSE {U}), k \in 1 .. (L + 1), s \in 1 .. (IF Rich THEN NV ELSE 1) }
